@@ -167,6 +167,7 @@ struct Mx {
     int foundNode = -1;
     bool foundUnparsed = false; // the trust-store entry reported as issuer has parseStatus != PS_X509_PARSE_SUCCESS
     int bundleEntries = 0, bundleUnparsed = 0;
+    bool nullIssuerCalled = false; int32 nullIssuerRc = 0;     // empty trust store: API called with issuerCerts == NULL (counted only)
     bool ownsStore = true;      // false: anchors and the CRL cache belong to a longer-lived Mx (history mode)
     ~Mx()
     {
@@ -305,7 +306,19 @@ static void run_matrixssl(Case &cs, Mx &mx)
 {
     if (!parse_chain(cs, mx)) return;
     parse_anchors(cs, mx);
-    if (mx.anchors.empty()) return;     // no CA material: the TLS layer never reports success in this situation
+    if (mx.anchors.empty())
+    {
+        // No CA material.  issuerCerts == NULL is a documented mode of the API ("To validate a single, self-signed certificate, the
+        // issuerCerts parameter must be set to NULL", CertificatesAndCRLs 2.1.5; matrixssl/test/certValidate.c relies on it): it checks
+        // the chain against its own self-signed top and says nothing about the caller's trust.  Not judged here - what the TLS layer
+        // makes of that PS_SUCCESS (hsDecode.c adds an UNKNOWN_CA guard, tls13Authenticate.c does not) is C04's subject; only counted.
+        matrixValidateCertsOptions_t opts;
+        memset(&opts, 0, sizeof opts);
+        psX509Cert_t *found = NULL;
+        mx.nullIssuerRc = matrixValidateCertsExt(NULL, mx.chain[0], NULL, NULL, &found, NULL, NULL, &opts);
+        mx.nullIssuerCalled = true;
+        return;
+    }
     for (auto &r : cs.crls) load_crl(r, mx.anchors[0], mx.chain[0]);
     validate(cs, mx);
 }
@@ -412,6 +425,7 @@ static void judge(Case &cs, Mx &mx, vf::Ctx &c, const std::string &where)
     }
     c.count(!mx.chainParsed ? "mx:chain-parse-reject" : !mx.called ? "mx:no-anchor" : success ? "mx:success" : std::string("mx:rc=") + rc_name(mx.rc));
     if (mx.anchorsFailed) c.count("mx:anchor-parse-failed");
+    if (mx.nullIssuerCalled) c.count(std::string("no-anchor:api-with-NULL-issuers:rc=") + rc_name(mx.nullIssuerRc) + "(documented self-signed mode, counted only)");
     c.count(must ? "ref:must-accept" : may ? "ref:may-accept(dont-care)" : "ref:must-reject");
     c.count(std::string(success ? "agree:accept/" : "agree:reject/") + (must ? "must" : may ? "dontcare" : "reject"));
     if (mx.called && mx.rc < 0 && allPass) c.count("note:failure-rc-with-all-authstatus-pass");
